@@ -90,7 +90,11 @@ impl VxPersist {
     #[verifier::external_body]
     pub fn delete_channel(&mut self, id: &PublicKey, cid: &ChannelId) -> (r: Result<(), PersistError>)
         ensures final(self).persisted_hwm() == old(self).persisted_hwm(),
+            r.is_ok() ==> final(self).record_deleted(*cid),
+            forall|c: ChannelId| old(self).record_deleted(c) ==> final(self).record_deleted(c),
     { unimplemented!() }
+    // call marker: the stored record of this channel was deleted (KVVPersister::delete_channel, unit persist_channels)
+    pub uninterp spec fn record_deleted(&self, cid: ChannelId) -> bool;
 }
 
 //@type vls-core/src/node.rs :: NodeState
@@ -130,6 +134,10 @@ impl Node {
         // only a stub is dropped from the map here; a ready channel stays until the monitor says it is done (prune_channels)
         forall|id: ChannelId| old(self).channels.val@.dom().contains(id) && !(old(self).channels.val@[id] is Stub)
             ==> final(self).channels.val@.dom().contains(id),                                            //[C15.forget.ready-channel-survives]
+        // a forgotten STUB is gone for good: dropped from the map and its stored record deleted, so a restart does not bring a
+        // channel with this id back
+        r.is_ok() && old(self).channels.val@.dom().contains(*channel_id) && old(self).channels.val@[*channel_id] is Stub
+            ==> !final(self).channels.val@.dom().contains(*channel_id) && final(self).persister.record_deleted(*channel_id),   //[C15.forget.stub-record-deleted]
 //@sub /(?s)let channel = slot\.lock\(\)\.vx_expect\(\);\s*match &\*channel \{.*?ChannelSlot::Stub\(_\) => \{(.*?)\}\s*ChannelSlot::Ready\(chan\) => \{\s*chan\.forget\(\)\?;\s*\}\s*\};/ => if slot.vx_is_stub() {\1} else { slot.vx_forget()?; }
 //@sub /self\.channels\.val\.remove\(&channel_id\)/ => self.channels.val.remove(channel_id)
 //@end
